@@ -41,7 +41,7 @@ type tsigCase struct {
 	Error      uint16
 	Other      []byte
 	RefSigned  bool    // the reference signs (header ID may differ from OrigId by IDDelta)
-	IDDelta    uint16  // reference-signed only: header ID = OrigId + IDDelta
+	IDDelta    uint16  // header ID = OrigId + IDDelta (reference-signed: the header is rewritten after signing; library-signed: Msg.Id differs from the TSIG's OrigId before TsigGenerate, RFC 8945 4.2 "Original ID")
 	Sample     []int   // sampled flip positions for long messages
 	Far        []int64 // verifier clock offsets (now - time signed) far outside the window: +-(k*2^j) + d, |d| <= fudge+1
 	Secret2    []byte  // "wrong secret" for the only-if clause
@@ -179,6 +179,13 @@ func checkTsig(c tsigCase) (err error) {
 		ts := m.IsTsig()
 		ts.Error = c.Error
 		ts.OtherLen, ts.OtherData = uint16(len(c.Other)), hex.EncodeToString(c.Other)
+		if c.IDDelta != 0 {
+			// the message was first sent (and its TSIG set up) under another ID: the MAC covers that
+			// original ID, whatever ID the header carries now
+			want.OrigID = m.Id - c.IDDelta
+			ts.OrigId = want.OrigID
+			classes = append(classes, "libsigned-origid-differs")
+		}
 		var mac string
 		var gerr error
 		out, mac, gerr = dns.TsigGenerate(m, base64.StdEncoding.EncodeToString(c.Secret), hex.EncodeToString(c.ReqMAC), c.TimersOnly)
@@ -195,6 +202,14 @@ func checkTsig(c tsigCase) (err error) {
 		stripped, last, mp, werr := ref.StripLast(out)
 		if werr != nil {
 			return pbt.Errf("TsigGenerate output does not parse: %v", werr)
+		}
+		if c.IDDelta != 0 && len(stripped) >= 2 {
+			// which of the two IDs TsigGenerate leaves in the header is not part of the statement
+			// (the pinned library sends the original one); everything else must be the packed message
+			if id := binary.BigEndian.Uint16(stripped); id != want.OrigID && id != binary.BigEndian.Uint16(packed) {
+				return pbt.Errf("TsigGenerate output carries header ID %d, neither the message's %d nor the original %d", id, binary.BigEndian.Uint16(packed), want.OrigID)
+			}
+			ref.SetID(stripped, binary.BigEndian.Uint16(packed))
 		}
 		if !bytes.Equal(stripped, packed) {
 			return pbt.Errf("TsigGenerate output minus its last additional record differs from Pack() of the message (first difference at octet %d, lengths %d/%d)", firstDiff(stripped, packed), len(stripped), len(packed))
@@ -474,6 +489,13 @@ func checkTsig(c tsigCase) (err error) {
 	return nil
 }
 
+func btoi(b bool) int {
+	if b {
+		return 1
+	}
+	return 0
+}
+
 func invertCase(n ref.Labels) ref.Labels {
 	o := make(ref.Labels, len(n))
 	for i, l := range n {
@@ -588,7 +610,7 @@ func genTsig(t *rapid.T) tsigCase {
 		c.Other = rapid.SliceOfN(rapid.Byte(), n, n).Draw(t, "other")
 	}
 	c.RefSigned = rapid.IntRange(0, 2).Draw(t, "refsigned") == 0
-	if c.RefSigned && rapid.Bool().Draw(t, "otherid") {
+	if rapid.IntRange(0, 2-btoi(c.RefSigned)).Draw(t, "otherid") == 0 {
 		c.IDDelta = rapid.Uint16Range(1, 65535).Draw(t, "iddelta")
 	}
 	c.Sample = rapid.SliceOfN(rapid.IntRange(0, 1<<22), 64, 64).Draw(t, "sample")
